@@ -43,7 +43,7 @@ impl InputGenerator {
 //@ }
 //@ pub closed spec fn wf(&self) -> bool { self.utf8.wf() }
     pub fn new() -> Self {
-//@ ensures r.wf(), r.view() == dec_init(),   // [~C04,C02,C03,~C17]
+//@ ensures r.wf(), r.view() == dec_init(),   // [~C04,C02,~C03,~C17]
         // last byte matters only when its Esc, \r or \n, so can set it to just 0
         Self {
             flags: Flags::empty(),
@@ -55,7 +55,7 @@ impl InputGenerator {
     pub fn accept(&mut self, byte: u8) -> Option<Input<'_>> {
 //@ requires old(self).wf(),
 //@ ensures
-//@     final(self).wf(),   // [C02,C03,~C04,~C17]
+//@     final(self).wf(),   // [C02,~C03,~C04,~C17]
 //@     // C04: on every byte of a stream of key units the real decoder makes exactly the step of the abstract decoder
 //@     dec_good(old(self).view(), byte) ==>
 //@         final(self).view() == dec_step(old(self).view(), byte).0 && ev_of(r) == dec_step(old(self).view(), byte).1,   // [C04]
